@@ -11,6 +11,7 @@
      the JSON layout);
    - the inherent member.to_json_string() writes the member the way it appears
      inside the store;
+   - calls made one after the other on one thread return what each returns alone;
    - iterating, searching, querying and the parallel adaptors serialise nothing
      (their own result is compared with the solo result directly by the harness). *)
 From Coq Require Import List Arith Bool.
@@ -33,6 +34,7 @@ Definition spec_out (mem : list fkind) (o : op) : list tok :=
   | OpMemberTrait i => [t_inline i]
   | OpMemberPlain i => [in_store i (kind_of mem i)]
   | OpMemberForeign i => [t_inline i]
+  | OpMemberThenStore i => t_inline i :: store_form 0 mem
   end.
 
 (* the property for one run: every thread that has finished holds its solo result *)
